@@ -34,10 +34,20 @@ WEAKEN_TABLE = {
 }
 
 
+_PROG: Any = None
+_CALLER: Any = None
+
+
 def _kw(call: ast.Call, name: str, pos: Optional[int] = None) -> Optional[ast.AST]:
+    """the argument bound to parameter `name`: by keyword, or -- the callee resolved through the program model -- by position"""
     for k in call.keywords:
         if k.arg == name:
             return k.value
+    if _PROG is not None and _CALLER is not None:
+        from .common import bound_args
+        ba = bound_args(_PROG, _CALLER, call)
+        if ba is not None and name in ba:
+            return ba[name]
     if pos is not None and len(call.args) > pos:
         return call.args[pos]
     return None
@@ -245,6 +255,8 @@ def run(ch: Checker) -> None:
 
     # ---------------- C11.5
     gen = prog.own_method('HttpProxyPlugin', 'gen_ca_signed_certificate')
+    global _PROG, _CALLER
+    _PROG, _CALLER = prog, gen
     gg = cfg_of(gen, prog, exc_edges=False)
     bad = None
     bad12 = None
@@ -284,19 +296,49 @@ def run(ch: Checker) -> None:
     ch.check(bad is None and seen_pub > 0 and seen_sign > 0, 'C11.5', gen, 'SAN and CA dataflow', 'host name and CA files reach gen_public_key / sign_csr unchanged',
              bad[0] if bad else 'generation calls not found', witness=bad[1] if bad else None)
     sc = prog.function('proxy.common.pki', 'sign_csr')
-    cmd = [n_ for n_ in walk_no_nested(sc.node) if isinstance(n_, ast.List) and any(isinstance(e, ast.Constant) and e.value == '-CA' for e in n_.elts)]
+    # the argument vector handed to openssl, by value: a list display, or displays / named lists joined with +
+    def _flat_list(e: ast.AST) -> Optional[List[ast.AST]]:
+        if isinstance(e, (ast.List, ast.Tuple)):
+            out_: List[ast.AST] = []
+            for x in e.elts:
+                if isinstance(x, ast.Starred):
+                    sub = _flat_list(x.value)
+                    if sub is None:
+                        return None
+                    out_.extend(sub)
+                else:
+                    out_.append(x)
+            return out_
+        if isinstance(e, ast.BinOp) and isinstance(e.op, ast.Add):
+            l_, r_ = _flat_list(e.left), _flat_list(e.right)
+            return None if l_ is None or r_ is None else l_ + r_
+        return None
     okc = False
-    if cmd:
-        el = [norm(e) for e in cmd[0].elts]
-        def after(flag: str) -> Optional[str]:
-            f = repr(flag)
-            return el[el.index(f) + 1] if f in el and el.index(f) + 1 < len(el) else None
-        # the extension file = whatever name `with ext_file(<alt names parameter>, ...) as X` binds
-        withs = [w for w in walk_no_nested(sc.node) if isinstance(w, ast.With) and isinstance(w.items[0].context_expr, ast.Call) and attr_chain(w.items[0].context_expr.func) == 'ext_file'
-                 and w.items[0].context_expr.args and norm(w.items[0].context_expr.args[0]) == 'alt_subj_names' and isinstance(w.items[0].optional_vars, ast.Name)]
-        ext_names = {w.items[0].optional_vars.id for w in withs}   # type: ignore[union-attr]
-        okc = after('-CA') == 'ca_crt_path' and after('-CAkey') == 'ca_key_path' and after('-extfile') in ext_names and after('-in') == 'csr_path' and after('-out') == 'crt_path'
-        okc = okc and bool(withs)
+    n_cmd = 0
+    for p in fpaths(cfg_of(sc, prog, exc_edges=False)):
+        ch.paths += 1
+        symc = Sym(p)
+        for i_, nd_, lab_ in p.executed():
+            if nd_.ast is None or nd_.kind != 'stmt':
+                continue
+            for c_ in walk_no_nested(nd_.ast):
+                if isinstance(c_, ast.Call) and attr_chain(c_.func) == 'run_openssl_command' and c_.args:
+                    n_cmd += 1
+                    elts = _flat_list(symc.value(c_.args[0], i_))
+                    if elts is None:
+                        okc = False
+                        continue
+                    el = [norm(e) for e in elts]
+
+                    def after(flag: str) -> Optional[str]:
+                        f = repr(flag)
+                        return el[el.index(f) + 1] if f in el and el.index(f) + 1 < len(el) else None
+                    # the extension file = whatever name `with ext_file(<alt names parameter>, ...) as X` binds
+                    withs = [w for w in walk_no_nested(sc.node) if isinstance(w, ast.With) and isinstance(w.items[0].context_expr, ast.Call) and attr_chain(w.items[0].context_expr.func) == 'ext_file'
+                             and w.items[0].context_expr.args and norm(w.items[0].context_expr.args[0]) == 'alt_subj_names' and isinstance(w.items[0].optional_vars, ast.Name)]
+                    ext_names = {w.items[0].optional_vars.id for w in withs}   # type: ignore[union-attr]
+                    okc = after('-CA') == 'ca_crt_path' and after('-CAkey') == 'ca_key_path' and ((after('-extfile') or '') in ext_names or (after('-extfile') or '').replace(' ', '').startswith('__enter__(ext_file(alt_subj_names')) and after('-in') == 'csr_path' and after('-out') == 'crt_path' and bool(withs)
+    okc = okc and n_cmd > 0
     ch.check(okc, 'C11.5', sc, 'openssl x509 -req arguments', '-CA/-CAkey/-extfile/-in/-out carry the CA certificate, CA key, SAN extension file, CSR and output path',
              'sign_csr no longer places the CA certificate / key / SAN extension file at -CA / -CAkey / -extfile')
     guc = prog.own_method('HttpProxyPlugin', 'generate_upstream_certificate')
